@@ -217,11 +217,12 @@ def prints(out, tag):
     """Collect PrintT(<<tag, ...>>) tuples from TLC output (bracket matching; robust to worker interleaving)."""
     res = []
     i = 0
-    needle = '<<"' + tag + '"'
+    needle = re.compile(r'<<\s*"' + re.escape(tag) + '"')
     while True:
-        j = out.find(needle, i)
-        if j < 0:
+        m = needle.search(out, i)
+        if not m:
             break
+        j = m.start()
         depth, k = 0, j
         while k < len(out):
             if out.startswith('<<', k):
